@@ -80,6 +80,16 @@ type Interp struct {
 	// OnInvoke may take over a call on a symbolic interface value (e.g. one
 	// with slice arguments).
 	OnInvoke func(in *Interp, kind, dev string, args []Value, guard bdd.Node, st *State, pos string) (Value, bool)
+	// ReadableGlobals: package-level variables (root names "global:<path>")
+	// that only package initialisation writes; reading them is deterministic
+	// and is not recorded as an effect.
+	ReadableGlobals map[string]bool
+	// LenientExternals makes unknown external calls return opaque values
+	// instead of failing (used only to interpret package initialisation).
+	LenientExternals bool
+	// InterpretExternal lists library functions that are simple enough to be
+	// interpreted from their own SSA bodies (e.g. encoding/binary byte order).
+	InterpretExternal map[string]bool
 	// Models of external functions: name -> handler.
 	Models map[string]ModelFunc
 	// NoGlobalEvents: do not record reads of package-level variables.
@@ -131,6 +141,10 @@ func (in *Interp) Run(fn *ssa.Function, args []Value, st *State) (res Value, out
 				err = u
 				return
 			}
+			if b, ok := r.(*bdd.Budget); ok {
+				err = &Undecided{Pos: in.P.Pos(fn.Pos()), Why: b.Error() + ": the values involved have no compact canonical form (e.g. a table with unknown contents indexed by a value)"}
+				return
+			}
 			panic(r)
 		}
 	}()
@@ -176,7 +190,7 @@ func joinPath(path, name string, embedded bool) string {
 
 func elemPath(path string, i int) string { return fmt.Sprintf("%s[%d]", path, i) }
 
-const maxArrayLeaves = 64
+const maxArrayLeaves = 256
 
 // EachLeaf enumerates the leaf locations of a value of type t at path.
 func (in *Interp) EachLeaf(t types.Type, path string, f func(path string, t types.Type)) {
@@ -553,6 +567,10 @@ func (in *Interp) initLike(root string, ri *rootInfo, path string, sample Value)
 }
 
 func (in *Interp) call(fn *ssa.Function, args []Value, guard bdd.Node, st *State, pos token.Pos) (Value, *State) {
+	return in.callBound(fn, args, nil, guard, st, pos)
+}
+
+func (in *Interp) callBound(fn *ssa.Function, args []Value, bindings []Value, guard bdd.Node, st *State, pos token.Pos) (Value, *State) {
 	if fn.Blocks == nil {
 		in.undecided(pos, "call of function without body %s", fn.String())
 	}
@@ -569,8 +587,11 @@ func (in *Interp) call(fn *ssa.Function, args []Value, guard bdd.Node, st *State
 	for i, p := range fn.Params {
 		fr.vals[p] = args[i]
 	}
-	if len(fn.FreeVars) > 0 {
-		in.undecided(pos, "closure %s", fn.String())
+	if len(fn.FreeVars) != len(bindings) {
+		in.undecided(pos, "closure %s called without its bindings", fn.String())
+	}
+	for i, fv := range fn.FreeVars {
+		fr.vals[fv] = bindings[i]
 	}
 	order := rpo(fn)
 	index := make(map[*ssa.BasicBlock]int, len(order))
@@ -751,11 +772,15 @@ func (in *Interp) operand(fr *frame, v ssa.Value) Value {
 		name := x.RelString(nil)
 		r := "global:" + name
 		if _, ok := in.roots[r]; !ok {
-			in.roots[r] = &rootInfo{Symbolic: true, Prefix: "global " + x.Name()}
+			if in.ReadableGlobals[r] {
+				in.roots[r] = &rootInfo{} // written by package initialisation only: its stores (or zero) are the contents
+			} else {
+				in.roots[r] = &rootInfo{Symbolic: true, Prefix: "global " + x.Name()}
+			}
 		}
 		return &Ptr{Root: r, Nil: bdd.False}
 	case *ssa.Function:
-		return &Opaque{Why: "func " + x.String()}
+		return &FuncV{Fn: x}
 	case *ssa.Builtin:
 		return &Opaque{Why: "builtin " + x.Name()}
 	}
@@ -897,6 +922,13 @@ func (in *Interp) exec(fr *frame, instr ssa.Instruction, pred bdd.Node, st *Stat
 				fr.vals[x] = iv.Conc
 			}
 		}
+	case *ssa.MakeClosure:
+		fv := &FuncV{}
+		fv.Fn, _ = x.Fn.(*ssa.Function)
+		for _, b := range x.Bindings {
+			fv.Bindings = append(fv.Bindings, in.operand(fr, b))
+		}
+		fr.vals[x] = fv
 	case *ssa.Defer:
 		name := "func value"
 		if f := x.Call.StaticCallee(); f != nil {
@@ -966,6 +998,7 @@ func (in *Interp) exec(fr *frame, instr ssa.Instruction, pred bdd.Node, st *Stat
 		if !ok1 || !ok2 {
 			in.undecided(x.Pos(), "range over a map of non-integers")
 		}
+		_ = vw
 		pre := fmt.Sprintf("range#%d(%s)", it.ID, it.Map.Sym)
 		fr.vals[x] = &Tuple{Elems: []Value{C.Atom(pre+".more", 1), C.Atom(pre+".key", kw), C.Atom(pre+".value", vw)}}
 	default:
@@ -983,7 +1016,20 @@ func (in *Interp) indexAddr(fr *frame, x *ssa.IndexAddr) Value {
 	switch b := base.(type) {
 	case *Ptr: // pointer to array
 		if !isConst {
-			if at, ok := x.X.Type().Underlying().(*types.Pointer).Elem().Underlying().(*types.Array); ok && at.Len() > maxArrayLeaves {
+			if strings.HasPrefix(b.Root, "global:") && !in.ReadableGlobals[b.Root] && !in.NoGlobalEvents {
+				// a table with a writer outside initialisation: contents unknown
+				return &Ptr{Root: b.Root + "/" + b.Path, Nil: bdd.False, Idx: in.C.Resize(iv, in.intWidth(), false)}
+			}
+			if at, ok := x.X.Type().Underlying().(*types.Pointer).Elem().Underlying().(*types.Array); ok && at.Len() <= 256 {
+				// a small table indexed by a value: a choice among its cells
+				pc := &PtrChoice{}
+				for i := 0; i < int(at.Len()); i++ {
+					pc.Conds = append(pc.Conds, in.C.Eq(iv, in.C.Const(len(iv), uint64(i))))
+					pc.Ptrs = append(pc.Ptrs, &Ptr{Root: b.Root, Path: elemPath(b.Path, i), Nil: bdd.False})
+				}
+				return pc
+			}
+			if at, ok := x.X.Type().Underlying().(*types.Pointer).Elem().Underlying().(*types.Array); ok && at.Len() > 256 {
 				// a large array cell addressed by a value: recorded as element events on the array's name
 				return &Ptr{Root: b.Root + "/" + b.Path, Nil: bdd.False, Idx: in.C.Resize(iv, in.intWidth(), false)}
 			}
@@ -1011,7 +1057,7 @@ func (in *Interp) indexAddr(fr *frame, x *ssa.IndexAddr) Value {
 			return &Ptr{Root: b.Root, Path: elemPath(b.Path, b.Lo+int(k)), Nil: bdd.False}
 		}
 		n, lc := b.Len.IsConst()
-		if !lc || n > 16 {
+		if !lc || n > 256 {
 			in.undecided(x.Pos(), "slice of unknown length indexed by a non-constant")
 		}
 		pc := &PtrChoice{}
@@ -1095,8 +1141,11 @@ func (in *Interp) unop(fr *frame, x *ssa.UnOp, pred bdd.Node, st *State) Value {
 	v := in.operand(fr, x.X)
 	switch x.Op {
 	case token.MUL:
-		if p, ok := v.(*Ptr); ok && strings.HasPrefix(p.Root, "global:") && !in.NoGlobalEvents {
+		if p, ok := v.(*Ptr); ok && strings.HasPrefix(p.Root, "global:") && !in.NoGlobalEvents && !in.ReadableGlobals[p.Root] {
 			in.T.Emit(pred, "GlobalRead", p.Root, nil, 0, in.P.Pos(x.Pos()))
+		}
+		if pc, ok := v.(*PtrChoice); ok && len(pc.Ptrs) > 0 && strings.HasPrefix(pc.Ptrs[0].Root, "global:") && !in.NoGlobalEvents && !in.ReadableGlobals[pc.Ptrs[0].Root] {
+			in.T.Emit(pred, "GlobalRead", pc.Ptrs[0].Root, nil, 0, in.P.Pos(x.Pos()))
 		}
 		return in.Load(st, v, x.Type(), x.Pos())
 	case token.NOT, token.XOR:
@@ -1317,6 +1366,16 @@ func (in *Interp) callInstr(fr *frame, x *ssa.Call, pred bdd.Node, st *State) Va
 				return s.Len
 			case *Str:
 				return s.Len
+			case *Map:
+				if s.Sym != "" {
+					w := in.intWidth()
+					return in.C.Zext(in.C.Atom("len("+s.Sym+")", w-1), w)
+				}
+			}
+		case "clear":
+			if m, ok := args[0].(*Map); ok && m.Sym != "" {
+				in.T.Emit(pred, "map.clear", m.Sym, nil, 0, pos)
+				return nil
 			}
 		case "delete":
 			m, ok := args[0].(*Map)
@@ -1333,8 +1392,18 @@ func (in *Interp) callInstr(fr *frame, x *ssa.Call, pred bdd.Node, st *State) Va
 		in.undecided(x.Pos(), "unsupported builtin %s", b.Name())
 	}
 	fn := cc.StaticCallee()
+	var bindings []Value
 	if fn == nil {
-		in.undecided(x.Pos(), "dynamic call through a function value")
+		// a call through a function value the analysis has resolved
+		fv, ok := in.operand(fr, cc.Value).(*FuncV)
+		if !ok || fv.Fn == nil {
+			in.undecided(x.Pos(), "dynamic call through a function value that is not resolved to one function")
+		}
+		fn, bindings = fv.Fn, fv.Bindings
+	} else if mc, ok := cc.Value.(*ssa.MakeClosure); ok {
+		if fv, ok := in.operand(fr, mc).(*FuncV); ok {
+			bindings = fv.Bindings
+		}
 	}
 	if load.InModule(fn) && fn.Blocks != nil {
 		if in.OnCall != nil {
@@ -1343,15 +1412,38 @@ func (in *Interp) callInstr(fr *frame, x *ssa.Call, pred bdd.Node, st *State) Va
 				return res
 			}
 		}
-		res, out := in.call(fn, args, pred, st, x.Pos())
+		res, out := in.callBound(fn, args, bindings, pred, st, x.Pos())
 		*st = *out
 		return res
 	}
 	name := fn.String()
 	in.Externals[name]++
+	if in.InterpretExternal[name] && fn.Blocks != nil {
+		res, out := in.callBound(fn, args, bindings, pred, st, x.Pos())
+		*st = *out
+		return res
+	}
 	if h, ok := in.Models[name]; ok {
 		if v, handled := h(in, args, pred, st, pos); handled {
 			return v
+		}
+	}
+	if strings.HasSuffix(name, ".init") && len(args) == 0 {
+		return nil // initialisation of an imported package
+	}
+	if in.LenientExternals {
+		res := fn.Signature.Results()
+		switch res.Len() {
+		case 0:
+			return nil
+		case 1:
+			return &Opaque{Why: "result of " + name}
+		default:
+			t := &Tuple{}
+			for i := 0; i < res.Len(); i++ {
+				t.Elems = append(t.Elems, &Opaque{Why: "result of " + name})
+			}
+			return t
 		}
 	}
 	switch name {
@@ -1461,6 +1553,12 @@ func (in *Interp) SymbolicValue(t types.Type, prefix string) Value {
 	return &Opaque{Why: "symbolic " + prefix}
 }
 
+// FuncV is a function value: a plain function or a closure with its bindings.
+type FuncV struct {
+	Fn       *ssa.Function
+	Bindings []Value
+}
+
 // Str is a string value: symbolic contents named Sym with a length, or a constant.
 type Str struct {
 	Sym   string
@@ -1479,6 +1577,29 @@ func (in *Interp) lookup(fr *frame, x *ssa.Lookup, pred bdd.Node) Value {
 	if !okw {
 		// set-like map (struct{} values): only the presence bit matters
 		vw = 0
+	}
+	// the key currently ranged over (and not yet touched in this iteration)
+	// is present with the ranged value: language semantics of range
+	for id := 1; id <= in.rangeN; id++ {
+		pre := fmt.Sprintf("range#%d(%s)", id, m.Sym)
+		if !in.C.HasAtom(pre+".key") || vw == 0 {
+			continue
+		}
+		if k.Equal(in.C.Atom(pre+".key", len(k))) {
+			touched := false
+			for _, e := range in.T.Events {
+				if e.Dev == m.Sym && (e.Kind == "map.set" || e.Kind == "map.delete" || e.Kind == "map.clear") {
+					touched = true
+				}
+			}
+			if !touched {
+				val := in.C.Atom(pre+".value", vw)
+				if x.CommaOk {
+					return &Tuple{Elems: []Value{val, in.C.Const(1, 1)}}
+				}
+				return val
+			}
+		}
 	}
 	res := in.T.Emit(pred, "map.get", m.Sym, []dom.BV{k}, vw+1, in.P.Pos(x.Pos()))
 	present := dom.BV{res[vw]}
